@@ -17,7 +17,7 @@ from ..world import build_entities, CLASSES
 from ..build import declare_vars
 from ..qcheck import ident, show_rows, var_domains, compare_lists
 
-from entity_query_language import an, entity, symbolic_mode, concatenate, in_, contains, not_, let
+from entity_query_language import an, entity, set_of, symbolic_mode, concatenate, in_, contains, not_, let
 
 ID = "C17"
 TITLE = "concatenate yields a single value: all inner elements, in order"
@@ -49,6 +49,7 @@ def _case(draw, tier):
     outer = list(draw(st.permutations(list(range(n))))[:draw(st.integers(1, n))])
     return {"ents": recs, "doms": [parents, outer], "vars": [{"dom": 0, "decl": draw(st.sampled_from(["let", "from"])), "type": "Ent"},
                                                             {"dom": 1, "decl": draw(st.sampled_from(["let", "from"])), "type": "Ent"}],
+            "select_form": draw(st.sampled_from(["entity", "entity", "set_of"])),
             "inner": inner, "form": draw(st.sampled_from(["in_", "contains"])), "negate": draw(st.booleans()),
             "neg_spelling": draw(st.sampled_from(["not_", "~"])), "dom_kind": "list",
             "outer_term": draw(st.sampled_from(["var", "var", "ref"])) if inner == "kids" else
@@ -82,7 +83,7 @@ def check(case) -> Outcome:
     non_members = [o for o in outer if not member(oval(o))]
     ids = [ident((x,)) for x in flat]
     nontrivial = len(parents) >= 2 and len(set(ids)) < len(ids) and bool(members) and bool(non_members)
-    classes = ["inner_" + case["inner"], "form_" + case["form"], "negated" if case["negate"] else "plain",
+    classes = ["select_" + case.get("select_form", "entity"), "inner_" + case["inner"], "form_" + case["form"], "negated" if case["negate"] else "plain",
                f"parents{len(parents)}", "outer_" + ot]
     if not flat:
         classes.append("all_inners_empty")
@@ -96,15 +97,17 @@ def check(case) -> Outcome:
         V, _ = declare_vars(case, objs)
         with symbolic_mode():
             c = concatenate(getattr(V[0], case["inner"]))
-            q = an(entity(c))
+            q = an(entity(c)) if case.get("select_form", "entity") == "entity" else an(set_of([c]))
     except Exception as e:
         return fail("exception_value", f"building: {type(e).__name__}: {e}", nontrivial=nontrivial, classes=classes,
                     features=feats)
     for attempt in (1, 2):
         try:
             res = list(q.evaluate())
+            if case.get("select_form", "entity") == "set_of":
+                res = [r[c] for r in res]
         except Exception as e:
-            return fail("exception_value", f"evaluation {attempt} of an(entity(concatenate(p.{case['inner']}))): "
+            return fail("exception_value", f"evaluation {attempt} of an({case.get('select_form', 'entity')}(concatenate(p.{case['inner']}))): "
                                            f"{type(e).__name__}: {e}; expected one row {flat}", nontrivial=nontrivial,
                         classes=classes, features=feats)
         if len(res) != 1:
@@ -128,8 +131,20 @@ def check(case) -> Outcome:
             cond = in_(item, c) if case["form"] == "in_" else contains(c, item)
             if case["negate"]:
                 cond = not_(cond) if case["neg_spelling"] == "not_" else ~cond
-            q = an(entity(d, cond))
-        got = [(r,) for r in q.evaluate()]
+            if case.get("select_form", "entity") == "entity":
+                q = an(entity(d, cond))
+            else:
+                q = an(set_of([d, c], cond))          # the outer variable together with the concatenated value
+        if case.get("select_form", "entity") == "entity":
+            got = [(r,) for r in q.evaluate()]
+        else:
+            got = []
+            for r in q.evaluate():
+                if not isinstance(r[c], (list, tuple)) or [ident((x,)) for x in r[c]] != ids:
+                    return fail("wrong_concatenation_in_row", f"set_of([d, concatenate(...)], ...) row for {r[d]!r} carries "
+                                                              f"{r[c]!r}; expected {flat!r}", nontrivial=nontrivial,
+                                classes=classes, features=feats)
+                got.append((r[d],))
     except Exception as e:
         return fail("exception_membership", f"{type(e).__name__}: {e}", nontrivial=nontrivial, classes=classes,
                     features=feats)
